@@ -279,7 +279,7 @@ def merge_value(c, a, b, sa, sb, out):
     if isinstance(t, tuple) and t[0] == 'list':
         raise MergeFail('list value vs non-ref')
     ite = z3.If(c, lift(a, sa, t), lift(b, sb, t))
-    if t in ('str', 'bytes'):
+    if t in ('str', 'bytes') and (isinstance(a, Sym) or isinstance(b, Sym)):
         # name the merged string: keeps later terms small (the defining equation goes to the path condition)
         from .values import fresh
         nv = fresh('m', t)
